@@ -206,6 +206,31 @@ def check(ctx):
                         seen5.add(key)
                         ctx.violation("R-C16.5", f"requadratic:{fn.name}:{Tk}", f"in {fn.name} the loop-carried `{T}` {kind} (`{S.unparse(a_)[:80]}`): the k-th iteration does work proportional to k, so k repetitions cost ~k^2/2",
                                       file=m_.rel, function=fn.name, line=a_.lineno, construct=S.unparse(a_)[:160])
+                # a chain that persists across the rounds of this loop must not be WALKED from its head in every round (`tail = head; while tail.next: tail = tail.next`
+                # inside the loop that extends the chain): the k-th round walks k links
+                for W in [x for x in ast.walk(L) if isinstance(x, ast.While) and x is not L]:
+                    steps = [a_ for a_ in ast.walk(W) if isinstance(a_, ast.Assign) and len(a_.targets) == 1 and isinstance(a_.targets[0], ast.Name) and isinstance(a_.value, ast.Attribute)
+                             and isinstance(a_.value.value, ast.Name) and a_.value.value.id == a_.targets[0].id]
+                    for stp in steps:
+                        v_ = stp.targets[0].id
+                        inits = [a_ for a_ in ast.walk(L) if isinstance(a_, ast.Assign) and len(a_.targets) == 1 and isinstance(a_.targets[0], ast.Name) and a_.targets[0].id == v_ and isinstance(a_.value, ast.Name)
+                                 and a_.lineno < W.lineno and a_ not in steps]
+                        for ini in inits:
+                            head = ini.value.id
+                            carried = head in params or any(isinstance(b, (ast.Assign, ast.AnnAssign)) and b.lineno < L.lineno and any(isinstance(t, ast.Name) and t.id == head for t in (b.targets if isinstance(b, ast.Assign) else [b.target])) for b in ast.walk(fn))
+                            is_loopvar = isinstance(L, ast.For) and any(isinstance(t, ast.Name) and t.id == head for t in ast.walk(L.target))
+                            if not carried or is_loopvar:
+                                continue
+                            n5 += 1
+                            key = ("chainwalk", fn.name, head)
+                            ctx.oblige("R-C16.5", f"{fn.name}: chain rooted at loop-carried `{head}` walked inside the loop at line {L.lineno}", False)
+                            if key not in seen5:
+                                seen5.add(key)
+                                from .c06 import canon_of
+                                Hk = head if head in params else canon_of(fn).text(ini.value).replace("_", "$", 1)
+                                ctx.violation("R-C16.5", f"requadratic:{fn.name}:{Hk}:chain-walk", f"in {fn.name} every round of the loop at line {L.lineno} walks the chain that hangs off `{head}` from its head "
+                                              f"(`{S.unparse(ini)}`; `{S.unparse(W.test)[:40]}`: `{S.unparse(stp)}`) although the chain persists - and grows - across the rounds: the k-th round walks k links, so k elements cost ~k^2/2",
+                                              file=m_.rel, function=fn.name, line=W.lineno, construct=S.unparse(W)[:160])
                 # a container that GROWS in this loop (append / extend / += / rebuilt from itself) must not be traversed in the same loop: the k-th
                 # round then walks k elements.  Traversals: iteration (for / comprehension), membership test, whole-container builtins, copying slices.
                 grown = {}
